@@ -1,14 +1,14 @@
-\* quick: ONE object, offsets 0..1, sizes 1/2, 2 values + Top + flagged value; from every preset all histories of <= 2 operations; every one-change variant of every reference result is judged
+\* quick: TWO LISTS (copy / merge), one object, offsets 0..1, size 1; both lists start in the same preset; histories of <= 2 operations; variants judged
 CONSTANTS
   NObj = 1
   OffHi = 1
-  Sizes = {1, 2}
+  Sizes = {1}
   NVals = 2
   Depth = 2
   PtrVal = FALSE
-  TopVal = TRUE
+  TopVal = FALSE
   Variants = TRUE
-  TwoLists = FALSE
+  TwoLists = TRUE
   Presets = TRUE
 INIT MCInit
 NEXT MCNext
